@@ -1,9 +1,10 @@
 import DepsDev.Proofs.C03L3Incl
 
 /-!
-# C03 layer L3 for npm, operator `eq`: interval membership of a prerelease candidate
+# C03 layer L3 for npm, operator `eq`: interval membership of a prerelease candidate (operands without tag)
 
-See `C03L3Incl` for the statement (`L1PNpm`) and the proof script.
+See `C03L3Incl` for the statements and the proof script; `C03L3InclEqP` has the tagged operands
+and the assembled `L1PNpm .eq`.
 -/
 namespace DepsDev.Proofs.C03
 
@@ -13,12 +14,6 @@ set_option linter.unusedSimpArgs false
 set_option linter.unusedVariables false
 
 theorem l1p_full_eq : L1PFull .eq := by l1p_full
-theorem l1p_pre_lt_eq : L1PPreO .eq .lt := by l1p_pre
-theorem l1p_pre_eq_eq : L1PPreO .eq .eq := by l1p_pre
-theorem l1p_pre_gt_eq : L1PPreO .eq .gt := by l1p_pre
 theorem l1p_part_eq : L1PPart .eq := by l1p_part
-
-theorem l1p_npm_eq : L1PNpm .eq :=
-  l1p_assemble _ l1p_full_eq (l1p_pre_assemble _ l1p_pre_lt_eq l1p_pre_eq_eq l1p_pre_gt_eq) l1p_part_eq
 
 end DepsDev.Proofs.C03
